@@ -165,6 +165,13 @@ func runProject(optS string, files [][2][]byte) (out string) {
 	if err != nil {
 		return "loaderr msg=" + hxs(err.Error())
 	}
+	// the accessors may be called before validation (a documentation server does); what they return then is not what they
+	// return afterwards
+	func() {
+		defer func() { _ = recover() }()
+		_, _ = j.ToJson()
+		_ = j.Title()
+	}()
 	if je := j.ValidateJAPI(); je != nil {
 		return renderErr(dir, je)
 	}
